@@ -7,9 +7,13 @@ import OdlModel.Model.Weighting
 import Mathlib.Analysis.RCLike.Basic
 import Mathlib.Algebra.BigOperators.Group.Finset.Basic
 import Mathlib.Analysis.SpecialFunctions.Pow.Real
+import Mathlib.Algebra.Order.BigOperators.Ring.Finset
+import Mathlib.Analysis.Normed.Group.Basic
+import Mathlib.Tactic.FieldSimp
+import Mathlib.Tactic.Linarith
 
 namespace OdlModel.C02
-open OdlModel.Weighting
+open OdlModel.Weighting Finset
 
 /-- Scalar operations of the model at `𝕜 = ℝ` or `ℂ`: complex conjugate, real part, modulus. -/
 noncomputable def ops (𝕜 : Type) [RCLike 𝕜] : Ops 𝕜 ℝ :=
@@ -35,5 +39,318 @@ theorem sumTo_eq_sum {M : Type} [AddCommMonoid M] (n : Nat) (f : Nat → M) :
   induction n with
   | zero => simp [sumTo]
   | succ n ih => simp [sumTo, ih, Finset.sum_range_succ]
+
+variable {𝕜 : Type} [RCLike 𝕜]
+
+/-- weight function of a tensor-space weighting -/
+def twFn : TW ℝ → Nat → ℝ
+  | .const c => fun _ => c
+  | .arr w => w
+
+def pwFn : PW ℝ → Nat → ℝ
+  | .const c => fun _ => c
+  | .arr w => w
+
+/-- effective quadrature weights of a discretized space -/
+noncomputable def dW (close1 : ℝ → Bool) (u : Bool) (axes : List (Axis ℝ)) (w : TW ℝ) (p : Expo ℝ) :
+    Nat → ℝ :=
+  fun i => if scalesBoundary close1 u axes w p then twFn w i * bfac close1 (fun f => f) axes i
+    else twFn w i
+
+theorem tInner_eq_wsum (w : TW ℝ) (n : Nat) (x y : Nat → 𝕜) :
+    tInner (ops 𝕜) w n x y = ∑ i ∈ range n, x i * starRingEnd 𝕜 (y i) * ((twFn w i : ℝ) : 𝕜) := by
+  cases w <;> simp [tInner, innerDefault, sumTo_eq_sum, twFn, Finset.mul_sum, mul_assoc] <;>
+    exact Finset.sum_congr rfl (fun i _ => by ring)
+
+theorem dInner_eq_wsum (close1 : ℝ → Bool) (u : Bool) (axes : List (Axis ℝ)) (w : TW ℝ)
+    (p : Expo ℝ) (x y : Nat → 𝕜) :
+    dInner (ops 𝕜) close1 u axes w p x y =
+      ∑ i ∈ range (axesSize axes), x i * starRingEnd 𝕜 (y i) * ((dW close1 u axes w p i : ℝ) : 𝕜) := by
+  unfold dInner dW
+  split_ifs <;> simp [tInner_eq_wsum] <;>
+    exact Finset.sum_congr rfl (fun i _ => by push_cast; ring)
+
+theorem pInner_eq_wsum (w : PW ℝ) (m : Nat) (a : Nat → 𝕜) :
+    pInner (ops 𝕜) w m a = ∑ k ∈ range m, a k * ((pwFn w k : ℝ) : 𝕜) := by
+  cases w <;> simp [pInner, sumTo_eq_sum, pwFn, Finset.mul_sum] <;>
+    exact Finset.sum_congr rfl (fun i _ => by ring)
+
+/-- weighted Cauchy–Schwarz step shared by leaves and product nodes -/
+theorem wcs (m : Nat) (w : Nat → ℝ) (a : Nat → 𝕜) (A B : Nat → ℝ)
+    (hw : ∀ k, k < m → 0 ≤ w k) (hA : ∀ k, k < m → 0 ≤ A k) (hB : ∀ k, k < m → 0 ≤ B k)
+    (h : ∀ k, k < m → ‖a k‖ ^ 2 ≤ A k * B k) :
+    ‖∑ k ∈ range m, a k * ((w k : ℝ) : 𝕜)‖ ^ 2 ≤
+      (∑ k ∈ range m, A k * w k) * (∑ k ∈ range m, B k * w k) := by
+  have h1 : ‖∑ k ∈ range m, a k * ((w k : ℝ) : 𝕜)‖ ≤ ∑ k ∈ range m, ‖a k‖ * w k := by
+    refine (norm_sum_le _ _).trans (le_of_eq ?_)
+    refine Finset.sum_congr rfl (fun k hk => ?_)
+    rw [norm_mul, RCLike.norm_ofReal, abs_of_nonneg (hw k (Finset.mem_range.mp hk))]
+  have h2 : (∑ k ∈ range m, ‖a k‖ * w k) ^ 2 ≤
+      (∑ k ∈ range m, A k * w k) * (∑ k ∈ range m, B k * w k) := by
+    apply Finset.sum_sq_le_sum_mul_sum_of_sq_le_mul
+    · intro k hk; exact mul_nonneg (hA k (mem_range.mp hk)) (hw k (mem_range.mp hk))
+    · intro k hk; exact mul_nonneg (hB k (mem_range.mp hk)) (hw k (mem_range.mp hk))
+    · intro k hk
+      have := h k (mem_range.mp hk)
+      have hw' := hw k (mem_range.mp hk)
+      calc (‖a k‖ * w k) ^ 2 = ‖a k‖ ^ 2 * (w k) ^ 2 := by ring
+        _ ≤ (A k * B k) * (w k) ^ 2 := by gcongr
+        _ = A k * w k * (B k * w k) := by ring
+  have h0 : 0 ≤ ‖∑ k ∈ range m, a k * ((w k : ℝ) : 𝕜)‖ := norm_nonneg _
+  calc _ ≤ (∑ k ∈ range m, ‖a k‖ * w k) ^ 2 := by gcongr
+    _ ≤ _ := h2
+
+def twPos (w : TW ℝ) (n : Nat) : Prop := ∀ i, i < n → 0 < twFn w i
+def pwPos (w : PW ℝ) (m : Nat) : Prop := ∀ k, k < m → 0 < pwFn w k
+def axesPos (axes : List (Axis ℝ)) : Prop := ∀ a ∈ axes, 0 < a.fl ∧ 0 < a.fr
+
+/-- all weights (and boundary-cell fractions) of the space tree are positive -/
+def SpacePos : Space ℝ → Prop
+  | .tens n w _ => twPos w n
+  | .discr _ axes w _ => twPos w (axesSize axes) ∧ axesPos axes
+  | .prod m w _ comp => pwPos w m ∧ ∀ k, k < m → SpacePos (comp k)
+
+/-- all entries inside the index range are zero -/
+def ZeroOn : Space ℝ → El 𝕜 → Prop
+  | .tens n _ _, .vec x => ∀ i, i < n → x i = 0
+  | .discr _ axes _ _, .vec x => ∀ i, i < axesSize axes → x i = 0
+  | .prod m _ _ comp, .tup xs => ∀ k, k < m → ZeroOn (comp k) (xs k)
+  | _, _ => True
+
+theorem sideFac_pos (close1 : ℝ → Bool) (g : ℝ → ℝ) (hg : ∀ f, 0 < f → 0 < g f) (a : Axis ℝ)
+    (ha : 0 < a.fl ∧ 0 < a.fr) (k : Nat) : 0 < sideFac close1 g a k := by
+  unfold sideFac
+  have := hg _ ha.1; have := hg _ ha.2
+  split_ifs <;> positivity
+
+theorem bfac_pos (close1 : ℝ → Bool) (g : ℝ → ℝ) (hg : ∀ f, 0 < f → 0 < g f)
+    (axes : List (Axis ℝ)) (h : axesPos axes) (i : Nat) : 0 < bfac close1 g axes i := by
+  induction axes generalizing i with
+  | nil => simp [bfac]
+  | cons a l ih =>
+    simp only [bfac]
+    exact mul_pos (sideFac_pos close1 g hg a (h a (by simp)) _)
+      (ih (fun b hb => h b (by simp [hb])) _)
+
+theorem dW_pos (close1 : ℝ → Bool) (u : Bool) (axes : List (Axis ℝ)) (w : TW ℝ) (p : Expo ℝ)
+    (hw : twPos w (axesSize axes)) (ha : axesPos axes) (i : Nat) (hi : i < axesSize axes) :
+    0 < dW close1 u axes w p i := by
+  unfold dW
+  split_ifs
+  · exact mul_pos (hw i hi) (bfac_pos close1 _ (fun f hf => hf) axes ha i)
+  · exact hw i hi
+
+theorem wsum_self (n : Nat) (ω : Nat → ℝ) (x : Nat → 𝕜) :
+    ∑ i ∈ range n, x i * starRingEnd 𝕜 (x i) * ((ω i : ℝ) : 𝕜) =
+      ((∑ i ∈ range n, ‖x i‖ ^ 2 * ω i : ℝ) : 𝕜) := by
+  push_cast
+  exact Finset.sum_congr rfl (fun i _ => by rw [RCLike.mul_conj])
+
+theorem wsum_self_eq_zero (n : Nat) (ω : Nat → ℝ) (hω : ∀ i, i < n → 0 < ω i) (x : Nat → 𝕜) :
+    (∑ i ∈ range n, ‖x i‖ ^ 2 * ω i = 0) ↔ ∀ i, i < n → x i = 0 := by
+  rw [Finset.sum_eq_zero_iff_of_nonneg (fun i hi => mul_nonneg (sq_nonneg _) (hω i (mem_range.mp hi)).le)]
+  constructor
+  · intro h i hi
+    have := h i (mem_range.mpr hi)
+    have hw := hω i hi
+    have : ‖x i‖ ^ 2 = 0 := by
+      rcases mul_eq_zero.mp this with h | h
+      · exact h
+      · exact absurd h hw.ne'
+    simpa using this
+  · intro h i hi
+    simp [h i (mem_range.mp hi)]
+
+/-- `⟨x, x⟩` is a non-negative real, zero exactly for the zero element. -/
+theorem inner_self_real (close1 : ℝ → Bool) (s : Space ℝ) (hs : SpacePos s) (x : El 𝕜)
+    (hx : Shaped s x) :
+    ∃ r : ℝ, 0 ≤ r ∧ Space.inner (ops 𝕜) close1 s x x = (r : 𝕜) ∧ (r = 0 ↔ ZeroOn s x) := by
+  induction s generalizing x with
+  | tens n w p =>
+    cases x with
+    | tup => simp [Shaped] at hx
+    | vec x =>
+      refine ⟨∑ i ∈ range n, ‖x i‖ ^ 2 * twFn w i, ?_, ?_, ?_⟩
+      · exact Finset.sum_nonneg (fun i hi => mul_nonneg (sq_nonneg _) (hs i (mem_range.mp hi)).le)
+      · simp only [Space.inner, tInner_eq_wsum, wsum_self]
+      · simpa [ZeroOn] using wsum_self_eq_zero n (twFn w) hs x
+  | discr u axes w p =>
+    cases x with
+    | tup => simp [Shaped] at hx
+    | vec x =>
+      have hpos := dW_pos close1 u axes w p hs.1 hs.2
+      refine ⟨∑ i ∈ range (axesSize axes), ‖x i‖ ^ 2 * dW close1 u axes w p i, ?_, ?_, ?_⟩
+      · exact Finset.sum_nonneg (fun i hi => mul_nonneg (sq_nonneg _) (hpos i (mem_range.mp hi)).le)
+      · simp only [Space.inner, dInner_eq_wsum, wsum_self]
+      · simpa [ZeroOn] using wsum_self_eq_zero _ _ hpos x
+  | prod m w p comp ih =>
+    cases x with
+    | vec => simp [Shaped] at hx
+    | tup xs =>
+      simp only [Shaped] at hx
+      have ih' := fun k (hk : k < m) => ih k (hs.2 k hk) (xs k) (hx k)
+      choose! r hr0 hreq hrz using ih'
+      refine ⟨∑ k ∈ range m, r k * pwFn w k, ?_, ?_, ?_⟩
+      · exact Finset.sum_nonneg (fun k hk => mul_nonneg (hr0 k (mem_range.mp hk)) (hs.1 k (mem_range.mp hk)).le)
+      · simp only [Space.inner, pInner_eq_wsum]
+        push_cast
+        exact Finset.sum_congr rfl (fun k hk => by rw [hreq k (mem_range.mp hk)])
+      · rw [Finset.sum_eq_zero_iff_of_nonneg (fun k hk => mul_nonneg (hr0 k (mem_range.mp hk)) (hs.1 k (mem_range.mp hk)).le)]
+        simp only [ZeroOn]
+        constructor
+        · intro h k hk
+          have := h k (mem_range.mpr hk)
+          rcases mul_eq_zero.mp this with h' | h'
+          · exact (hrz k hk).mp h'
+          · exact absurd h' (hs.1 k hk).ne'
+        · intro h k hk
+          rw [(hrz k (mem_range.mp hk)).mpr (h k (mem_range.mp hk))]; simp
+
+theorem re_wsum (m : Nat) (a : Nat → 𝕜) (w : Nat → ℝ) :
+    RCLike.re (∑ k ∈ range m, a k * ((w k : ℝ) : 𝕜)) = ∑ k ∈ range m, RCLike.re (a k) * w k := by
+  rw [map_sum]
+  exact Finset.sum_congr rfl (fun k _ => by simp)
+
+/-- the `np.isclose(·, 1)` test idealised: it only fires at exactly 1 -/
+def Ideal (close1 : ℝ → Bool) : Prop := ∀ r, close1 r = true → r = 1
+
+theorem sum_range_divmod (n M : Nat) (f g : Nat → ℝ) :
+    ∑ i ∈ range (n * M), f (i / M) * g (i % M) = (∑ k ∈ range n, f k) * ∑ j ∈ range M, g j := by
+  rcases Nat.eq_zero_or_pos M with rfl | hM
+  · simp
+  induction n with
+  | zero => simp
+  | succ n ih =>
+    have e := Finset.sum_range_add (fun i => f (i / M) * g (i % M)) (n * M) M
+    have e2 : (n + 1) * M = n * M + M := Nat.succ_mul n M
+    rw [e2, e, ih, Finset.sum_range_succ (fun k => f k) n, add_mul]
+    congr 1
+    rw [Finset.mul_sum]
+    refine Finset.sum_congr rfl (fun j hj => ?_)
+    have hj' := mem_range.mp hj
+    show f ((n * M + j) / M) * g ((n * M + j) % M) = f n * g j
+    rw [Nat.mul_comm n M, Nat.mul_add_div hM, Nat.mul_add_mod, Nat.div_eq_of_lt hj', Nat.mod_eq_of_lt hj']
+    simp
+
+theorem bfac_sum (close1 : ℝ → Bool) (g : ℝ → ℝ) (axes : List (Axis ℝ)) :
+    ∑ i ∈ range (axesSize axes), bfac close1 g axes i =
+      (axes.map (fun a => ∑ k ∈ range a.n, sideFac close1 g a k)).prod := by
+  induction axes with
+  | nil => simp [axesSize, bfac]
+  | cons a l ih =>
+    simp only [axesSize, bfac, List.map_cons, List.prod_cons, ← ih]
+    exact sum_range_divmod a.n (axesSize l) _ _
+
+theorem sideFac_ideal (close1 : ℝ → Bool) (hc : Ideal close1) (a : Axis ℝ) (k : Nat) :
+    sideFac close1 (fun f => f) a k =
+      (if k = 0 then a.fl else 1) * (if k + 1 = a.n then a.fr else 1) := by
+  unfold sideFac
+  have e1 : close1 a.fl = true → a.fl = 1 := hc _
+  have e2 : close1 a.fr = true → a.fr = 1 := hc _
+  by_cases h1 : close1 a.fl = true <;> by_cases h2 : close1 a.fr = true <;>
+    simp [h1, h2] <;> split_ifs <;> simp_all
+
+theorem sideFac_sum (close1 : ℝ → Bool) (hc : Ideal close1) (a : Axis ℝ) (hn : 2 ≤ a.n) :
+    ∑ k ∈ range a.n, sideFac close1 (fun f => f) a k = (a.n : ℝ) - 2 + a.fl + a.fr := by
+  obtain ⟨m, hm⟩ : ∃ m, a.n = m + 2 := ⟨a.n - 2, by omega⟩
+  simp only [sideFac_ideal close1 hc, hm]
+  rw [Finset.sum_range_succ, Finset.sum_range_succ']
+  have : ∀ k ∈ range m, ((if k + 1 = 0 then a.fl else 1) * (if k + 1 + 1 = m + 2 then a.fr else 1) : ℝ) = 1 := by
+    intro k hk
+    have := mem_range.mp hk
+    rw [if_neg (by omega), if_neg (by omega)]; ring
+  rw [Finset.sum_congr rfl this]
+  simp
+
+theorem quad_alg (a b g1 g2 N : ℝ) (hN : N ≠ 0) (hg : g2 - g1 ≠ 0) :
+    (g2 - g1) / N * ((N + 1) - 2 + (1 / 2 + (g1 - a) / ((g2 - g1) / N)) +
+      (1 / 2 + (b - g2) / ((g2 - g1) / N))) = b - a := by
+  field_simp
+  ring
+
+theorem gridEnds_lt (a b : ℝ) (hab : a < b) (m : Nat) (l r : Bool) :
+    (gridEnds (fun k => (k : ℝ)) a b (m + 2) l r).1 < (gridEnds (fun k => (k : ℝ)) a b (m + 2) l r).2 := by
+  have e2 : 2 * (m + 2) - 1 = 2 * m + 3 := by omega
+  have hm : (0 : ℝ) ≤ m := Nat.cast_nonneg m
+  have hba' : 0 < b - a := by linarith
+  cases l <;> cases r <;> simp only [gridEnds, e2] <;> push_cast
+  · have : (b - a) / (2 * ((m : ℝ) + 2)) ≤ (b - a) / 4 := by
+      apply div_le_div_of_nonneg_left hba'.le (by norm_num) (by linarith)
+    linarith
+  · have : (b - a) / (2 * (m : ℝ) + 3) ≤ (b - a) / 3 := by
+      apply div_le_div_of_nonneg_left hba'.le (by norm_num) (by linarith)
+    linarith
+  · have : (b - a) / (2 * (m : ℝ) + 3) ≤ (b - a) / 3 := by
+      apply div_le_div_of_nonneg_left hba'.le (by norm_num) (by linarith)
+    linarith
+  · exact hab
+
+theorem mkAxis_quad (close1 : ℝ → Bool) (hc : Ideal close1) (a b : ℝ) (hab : a < b) (n : Nat)
+    (hn : 1 ≤ n) (l r : Bool) :
+    (mkAxis (fun k => (k : ℝ)) a b n l r).2 *
+      ∑ k ∈ range (mkAxis (fun k => (k : ℝ)) a b n l r).1.n,
+        sideFac close1 (fun f => f) (mkAxis (fun k => (k : ℝ)) a b n l r).1 k = b - a := by
+  by_cases h1 : n = 1
+  · subst h1
+    simp [mkAxis, sideFac_ideal close1 hc]
+  · obtain ⟨m, rfl⟩ : ∃ m, n = m + 2 := ⟨n - 2, by omega⟩
+    have e1 : m + 2 - 1 = m + 1 := by omega
+    have hlt := gridEnds_lt a b hab m l r
+    unfold mkAxis
+    rw [if_neg h1]
+    simp only []
+    have hs : ∀ fl fr : ℝ, ∑ x ∈ range (m + 2), sideFac close1 (fun f => f) ⟨m + 2, fl, fr⟩ x =
+        ((m + 2 : ℕ) : ℝ) - 2 + fl + fr := fun fl fr => sideFac_sum close1 hc ⟨m + 2, fl, fr⟩ (by simp)
+    rw [hs, e1]
+    have := quad_alg a b _ _ ((m + 1 : ℕ) : ℝ) (by positivity) (sub_ne_zero.mpr hlt.ne')
+    push_cast at this ⊢
+    rw [← this]
+    ring
+
+theorem bfac_of_allClose (close1 : ℝ → Bool) (g : ℝ → ℝ) (axes : List (Axis ℝ))
+    (h : allClose1 close1 axes = true) (i : Nat) : bfac close1 g axes i = 1 := by
+  induction axes generalizing i with
+  | nil => simp [bfac]
+  | cons a l ih =>
+    simp only [allClose1, List.all_cons, Bool.and_eq_true] at h
+    simp only [bfac, sideFac, h.1.1, h.1.2]
+    simp [ih (by simpa [allClose1] using h.2)]
+
+/-- cell volume of `uniform_discr`: product of the cell sides -/
+noncomputable def cellVolume (specs : List (AxSpec ℝ)) : ℝ :=
+  prodL (specs.map (fun s => (mkAxis (fun k => (k : ℝ)) s.a s.b s.n s.l s.r).2))
+
+theorem quad_prod (close1 : ℝ → Bool) (hc : Ideal close1) (specs : List (AxSpec ℝ))
+    (hs : ∀ s ∈ specs, s.a < s.b ∧ 1 ≤ s.n) :
+    cellVolume specs *
+      ((specAxes (fun k => (k : ℝ)) specs).map
+        (fun a => ∑ k ∈ range a.n, sideFac close1 (fun f => f) a k)).prod =
+      (specs.map (fun s => s.b - s.a)).prod := by
+  induction specs with
+  | nil => simp [cellVolume, specAxes, prodL]
+  | cons s l ih =>
+    have h1 := mkAxis_quad close1 hc s.a s.b (hs s (by simp)).1 s.n (hs s (by simp)).2 s.l s.r
+    have ih' := ih (fun t ht => hs t (by simp [ht]))
+    simp only [cellVolume, specAxes, List.map_cons, prodL, List.prod_cons] at ih' ⊢
+    rw [← ih', ← h1]
+    ring
+
+theorem discr_one_sum (close1 : ℝ → Bool) (hc : Ideal close1) (specs : List (AxSpec ℝ))
+    (hs : ∀ s ∈ specs, s.a < s.b ∧ 1 ≤ s.n)
+    (hcv : close1 (cellVolume specs) = false) :
+    ∑ i ∈ range (axesSize (specAxes (fun k => (k : ℝ)) specs)),
+      dW close1 true (specAxes (fun k => (k : ℝ)) specs) (.const (cellVolume specs)) .two i =
+      (specs.map (fun s => s.b - s.a)).prod := by
+  have hdW : ∀ i, dW close1 true (specAxes (fun k => (k : ℝ)) specs) (.const (cellVolume specs)) .two i
+      = cellVolume specs * bfac close1 (fun f => f) (specAxes (fun k => (k : ℝ)) specs) i := by
+    intro i
+    unfold dW
+    split_ifs with h
+    · simp [twFn]
+    · have : allClose1 close1 (specAxes (fun k => (k : ℝ)) specs) = true := by
+        simpa [scalesBoundary, uniformlyWeighted, Expo.isInf, TW.isWeighted, hcv] using h
+      simp [twFn, bfac_of_allClose close1 _ _ this]
+  simp only [hdW, ← Finset.mul_sum, bfac_sum]
+  exact quad_prod close1 hc specs hs
 
 end OdlModel.C02
